@@ -249,10 +249,9 @@ func (v *FHIRPathVisitor) VisitEqualityExpression(ctx *grammar.EqualityExpressio
 		expression = &expr.EqualityExpression{Left: leftResult.Result, Right: rightResult.Result}
 	case expr.NotEquals:
 		expression = &expr.EqualityExpression{Left: leftResult.Result, Right: rightResult.Result, Not: true}
-	case expr.Equivalence:
-		// TODO (PHP-5889): Implement equivalence expressions
-	case expr.Inequivalence:
-		// TODO (PHP-5889): Implement non-equivalence expressions
+	case expr.Equivalence, expr.Inequivalence:
+		// TODO (PHP-5889): Implement equivalence and non-equivalence expressions
+		return &VisitResult{nil, fmt.Errorf("%w: operator '%s'", errNotSupported, operator)}
 	}
 	return v.transformedVisitResult(expression)
 }
